@@ -135,7 +135,7 @@ Proof.
   assert (Hf : exists n, length file = S n).
   { destruct (length file) as [|n] eqn:E; [|eexists; reflexivity].
     unfold blen in Hlen. rewrite E in Hlen. discriminate Hlen. }
-  destruct Hf as (n & ->).
+  destruct Hf as (n & Hn). bnorm. rewrite Hn.
   match goal with |- context [v1_loop ?f file false ?c ?e ?k ?m] =>
     let c' := eval vm_compute in c in let e' := eval vm_compute in e in
     change (v1_loop f file false c e k m) with (v1_loop f file false c' e' k m) end.
@@ -172,10 +172,32 @@ Proof.
   - wit_tail_read.
 Qed.
 
+Lemma parse_v1_panic_witness : parse_v1 wit_file 0 0 false = Panic.
+Proof.
+  apply sym_parse_v1.
+  - exact wit_len.
+  - exact wit_index0.
+  - wit_head_read.
+  - wit_head_read.
+  - wit_head_read.
+  - wit_head_read.
+  - wit_head_read.
+  - wit_tail_read.
+  - wit_tail_read.
+Qed.
+(* the loop alone: the last message header sits at 2^64 - 8, its data would start at 2^64 *)
+Lemma v1_loop_panic_witness fuel :
+  v1_loop (S fuel) wit_file false 18446744073709551608 18446744073709551615 1 2 = Panic.
+Proof. apply sym_loop2; [exact wit_len | wit_tail_read | wit_tail_read]. Qed.
+
 (* hence the unconditional statement is false for the model as it is written *)
 Lemma dec_ohdr_no_panic_refuted : ~ (forall sbBE file addr, dec_ohdr sbBE file addr <> Panic).
 Proof. intros H. exact (H false wit_file 0 dec_ohdr_panic_witness). Qed.
 
 (* the witness is outside both hypotheses of the partial theorems *)
+Lemma wit_not_bytes : bytes_ok wit_file = false.
+Proof.
+  unfold wit_file. rewrite !bytes_ok_app. change (bytes_ok wit_head) with false. reflexivity.
+Qed.
 Lemma wit_not_short : ~ blen wit_file < 18446744073709551616.
 Proof. rewrite wit_len. blia. Qed.
